@@ -34,7 +34,8 @@ SHAPE_DOC = {
 # shapes whose harnesses cost <= ~150 s: quick tier
 RO_QUICK = SIZED + ["V_U8", "V_U8L32", "V_U16", "V_BOOL", "V_P", "V_A3", "STR8", "U_S1", "U_S2", "U_S5", "U_S6", "U_PS",
                     "U_E1", "U_E2", "U_E3", "U_E4", "U_E5", "U_E6", "U_PE", "X_U8", "X_U16", "X_U8L16", "X_U8P"]
-RO_THOROUGH = ["V_SB", "STR16", "STRP", "X_B", "X_V", "X_P", "U_S3", "U_S4", "X_V16", "X_S", "X_V8L16"]
+# X_V16, X_S, X_V8L16 exist in the crate but exhaust memory (10-16 GB) at the bounds where they say something: not registered
+RO_THOROUGH = ["V_SB", "STR16", "STRP", "X_B", "X_V", "X_P", "U_S3", "U_S4"]
 STRINGY = {"STR8", "STR16", "STRP", "U_S3", "X_S"}
 CONSTRAINED = {"U_E6", "U_E5", "S_BOOL", "S_BOOL3", "S_SB", "S_SB2", "S_SE1", "S_CE", "S_SE16", "S_PE", "V_BOOL", "V_SB", "STR8", "STR16",
                "STRP", "X_B", "X_U16", "X_V16", "X_S", "U_S3", "U_E1", "U_E2", "U_E3", "U_E4", "U_PE"}
@@ -50,6 +51,8 @@ def ro(family, what, shapes_quick=None, shapes_thorough=None, only=None):
         for sh in shapes:
             if only is not None and sh not in only:
                 continue
+            if family == "total" and sh == "V_SB":
+                continue  # the exact-size-object form exhausts 12 GB for this 14-byte shape
             name = "ro::%s::%s" % (sh, family)
             stub = False
             if family == "total" and sh in STRINGY:
@@ -316,9 +319,9 @@ prop("C13", "a rejected container operation leaves the container as it was",
 
 # ---------------------------------------------------------------- layout
 LAYS = ["S_U16", "S_BOOL", "S_BOOL3", "S_SB", "S_SB2", "S_SS1", "S_SS2", "S_SE1", "S_CE", "S_SE16", "S_PS", "S_PE"]
-LAY = ["X_U8P", "U_E5", "V_U8", "V_U8L32", "V_U16", "V_SB", "V_A3", "V_P", "STR8", "STR16", "X_U8", "X_U16", "X_V8L16", "U_S1", "U_S2", "U_S5", "U_S6",
+LAY = ["X_U8P", "U_E5", "V_U8", "V_U8L32", "V_U16", "V_SB", "V_A3", "V_P", "STR8", "STR16", "X_U8", "X_U16", "U_S1", "U_S2", "U_S5", "U_S6",
        "U_PS", "U_E1", "U_E2", "U_E3", "U_E4", "U_PE"]
-LAY_SLOW = {"V_SB", "X_V8L16", "STR16", "X_U16"}
+LAY_SLOW = {"V_SB", "STR16", "X_U16"}
 # engine M (lib/mir2smt.py, lib/smt_run.py): generic MIR -> SMT, symbolic SIZE / ALIGN of the field types
 MOBL = ["ceil_mul", "ceil_mul_any_m", "floor_mul", "max", "min", "PosIter_next", "SingleType_min_size", "TwoOrMore_min_size", "TwoOrMore_align",
         "FlatVec_DATA_OFFSET", "FlatVec_ALIGN", "FlatVec_ptr_from_bytes", "FlatVec_bytes_roundtrip", "FlatVec_size",
